@@ -459,7 +459,7 @@ def obligations(tier):
         for ci in (0, 1):
             for op in range(len(OPS)):
                 for op_b in range(len(OPS)):
-                    if OPS[op] in ('ctor_values', 'contains_eq') or OPS[op_b] in ('ctor_values',):
+                    if OPS[op] in ('ctor_values', 'contains_eq') or OPS[op_b] not in ('getitem', 'setitem', 'delitem', 'setdefault', 'popitem', 'copy', 'update_pairs'):
                         continue
                     obs.append(Ob('cache_step2', timeout=T, pins={'cls': ci, 'on_miss': (op + op_b) % 2, 'op': op, 'op_b': op_b, 'nmax': 3, 'msmax': 3}))
     return obs
